@@ -6,7 +6,7 @@
 From Coq Require Import List ZArith Bool Arith.
 From DS Require Import Model.C08_StructHeap.
 From DS Require Import Proofs.C08_Lists Proofs.C08_Prims Proofs.C08_Inv Proofs.C08_Step Proofs.C08_Refuted.
-From DS Require Import Proofs.C08_Spec Proofs.C08_Refine Proofs.C08_Guard.
+From DS Require Import Proofs.C08_Spec Proofs.C08_Refine Proofs.C08_Guard Proofs.C08_Dup.
 Import ListNotations.
 
 (* For EVERY finite sequence of public operations from ANY well-formed world: identities never dangle
@@ -61,6 +61,19 @@ Theorem C08_syntactic_guard_not_vacuous :
 Proof. exact syntactic_example_ok. Qed.
 Print Assumptions C08_syntactic_guard_not_vacuous.
 
+(* "unless asked" in syntactic form: if no operation of the history is a non-copying insertion
+   (append/insert/setitem/extend with copy=False), a slice assignment, an index list/tuple selection or a
+   __copy__ into an existing target, no Structure ever holds one atom in two slots.  (Conservative: every
+   slice assignment and every index-list selection counts as asking; the precise condition is g_dup.) *)
+Theorem C08_nodup_syntactic_guard_partial : forall ops w, Inv w -> g_dup w = false -> never_asks ops = true ->
+  nodup_ok (run current ops w).
+Proof. exact nodup_guarded. Qed.
+Print Assumptions C08_nodup_syntactic_guard_partial.
+
+Theorem C08_nodup_guard_not_vacuous :
+  never_asks never_asks_example = true /\ length (objs (run current never_asks_example empty_world)) = 8.
+Proof. exact never_asks_example_ok. Qed.
+
 (* results documented as copies (+ - * copy() Structure(stru) pickle deepcopy): the result is a NEW object,
    every atom in it is newer than every atom that existed before, its lattice is newer than every lattice
    that existed before, and everything that existed before still holds the same atom objects *)
@@ -88,6 +101,14 @@ Theorem C08_selections_share : forall o w h idxs old L, Inv w -> selected o w = 
     length (heap w') = length (heap w) /\ (forall b, tag_of w' b = tag_of w b).
 Proof. exact selections_share. Qed.
 Print Assumptions C08_selections_share.
+
+Theorem C08_copy_selection_hypotheses_satisfiable :
+  (Inv three_atoms /\ snd (step current (Mul 0 2%Z) three_atoms) = Done (RObj 1) /\
+   nth_error (objs (fst (step current (Mul 0 2%Z) three_atoms))) 1 = Some (OStruct [3; 4; 5; 6; 7; 8] 3)) /\
+  (get_struct three_atoms 0 = Some ([0; 1; 2], 0) /\
+   slice_indices 3 (mkSlice None None (Some (-2)%Z)) = Some [2; 0] /\
+   nth_error (objs (fst (step current (GetSlice 0 (mkSlice None None (Some (-2)%Z))) three_atoms))) 1 = Some (OStruct [2; 0] 0)).
+Proof. exact (conj copy_hypotheses_example selection_hypotheses_example). Qed.
 
 (* items refine plain-list semantics.  The core lemma: after any insertion/assignment the payload sequence of
    the receiver is the plain list edit (old[lo:hi] = new | old[i_k] = new[k] | [old[i] for i in idxs]) of its
